@@ -383,6 +383,14 @@ impl Diff {
                 if let Some(mut mis) = mis {
                     let scrolled = eff.scroll_n > 0;
                     let mut props = refine(props_of(&f, scrolled), &mis);
+                    if !self.m.alt && self.vt.lines().len() - self.m.rows != self.m.sb.len() && !props.contains(&"C06") {
+                        // whatever else differs, the number of lines scrolled off the top is not what
+                        // the scrolling rules give for this function (C06: "no other control function
+                        // adds to the scrollback")
+                        props.push("C06");
+                        props.sort();
+                        mis.msg = format!("{}; {} lines above the view, the scrolling rules give {}", mis.msg, self.vt.lines().len() - self.m.rows, self.m.sb.len());
+                    }
                     if mis.kind == MisKind::HPending {
                         // the flag and the reported cursor disagree: show what that does to the next
                         // printable character (C04: "written into the cell under the cursor")
